@@ -113,6 +113,91 @@ pub fn c01q_borrowed_forms() {
 	core::mem::forget(cow);
 }
 
+/// count-prefix boundary 63 -> 64 (one-byte mode ends at 63) on every sequence encoder, symbolic contents
+fn prefix_boundary<C: Encode + Spec, const N: usize>(v: &C) { enc_matches_spec::<C, N>(v) }
+#[kani::proof]
+#[kani::unwind(70)]
+pub fn c01q_count_boundary_vec_u8() {
+	let b63: [u8; 63] = kani::any();
+	let b64: [u8; 64] = kani::any();
+	let b65: [u8; 65] = kani::any();
+	let (v63, v64, v65) = (b63.to_vec(), b64.to_vec(), b65.to_vec());
+	prefix_boundary::<Vec<u8>, 72>(&v63);
+	prefix_boundary::<Vec<u8>, 72>(&v64);
+	prefix_boundary::<Vec<u8>, 72>(&v65);
+	let mut r = Buf::<72>::new();
+	v64[..].encode_to(&mut r);
+	assert!(r.n == 66 && r.d[0] == 0x01 && r.d[1] == 0x01, "a 64-element slice must carry the two-byte count prefix 01 01");
+	core::mem::forget((v63, v64, v65));
+}
+#[kani::proof]
+#[kani::unwind(70)]
+pub fn c01q_count_boundary_deque() {
+	let b: [u8; 64] = kani::any();
+	let d: VecDeque<u8> = VecDeque::from(b.to_vec());
+	let mut r = Buf::<72>::new();
+	d.encode_to(&mut r);
+	assert!(r.n == 66 && r.d[0] == 0x01 && r.d[1] == 0x01, "a 64-element deque must carry the two-byte count prefix 01 01");
+	let i: usize = kani::any();
+	kani::assume(i < 64);
+	assert!(r.d[2 + i] == b[i]);
+	core::mem::forget(d);
+}
+#[kani::proof]
+#[kani::unwind(70)]
+pub fn c01q_count_boundary_str() {
+	let mut r = Buf::<72>::new();
+	let ascii = [b'a'; 64];
+	// (unchecked: std's UTF-8 validator over 64 bytes alone does not finish in 400 s; the bytes are ASCII by construction)
+	unsafe { core::str::from_utf8_unchecked(&ascii) }.encode_to(&mut r);
+	assert!(r.n == 66 && r.d[0] == 0x01 && r.d[1] == 0x01, "a 64-byte str must carry the two-byte count prefix");
+	let mut r = Buf::<72>::new();
+	let ascii = [b'a'; 63];
+	// (unchecked: std's UTF-8 validator over 64 bytes alone does not finish in 400 s; the bytes are ASCII by construction)
+	unsafe { core::str::from_utf8_unchecked(&ascii) }.encode_to(&mut r);
+	assert!(r.n == 64 && r.d[0] == 0xfc, "a 63-byte str must carry the one-byte count prefix");
+}
+#[kani::proof]
+#[kani::unwind(70)]
+pub fn c01t_count_boundary_elem_path() {
+	let b: [bool; 64] = kani::any();
+	let v: Vec<bool> = b.to_vec();
+	prefix_boundary::<Vec<bool>, 72>(&v);
+	let w: Vec<u16> = alloc::vec![7u16; 64];
+	let mut r = Buf::<136>::new();
+	w.encode_to(&mut r);
+	assert!(r.n == 130 && r.d[0] == 0x01 && r.d[1] == 0x01);
+	core::mem::forget((v, w));
+}
+
+/// element types that are zero-sized IN MEMORY but have a non-empty encoding (one-variant fieldless enum = its index byte)
+#[cfg(feature = "ext")]
+pub mod zst_with_encoding {
+	use super::*;
+	use parity_scale_codec::Decode;
+	#[derive(Encode, Decode, Clone, Copy)]
+	pub enum OneV { #[codec(index = 5)] Only }
+	#[kani::proof]
+	#[kani::unwind(8)]
+	pub fn c01q_seq_of_zero_sized_elems_with_encoding() {
+		let v = alloc::vec![OneV::Only; 3];
+		let mut r = Buf::<8>::new(); v.encode_to(&mut r);
+		assert!(r.n == 4 && r.d[0] == 12 && r.d[1] == 5 && r.d[2] == 5 && r.d[3] == 5, "Vec of zero-sized elements lost their (non-empty) encodings");
+		let a = [OneV::Only; 2];
+		let mut r = Buf::<8>::new(); a.encode_to(&mut r);
+		assert!(r.n == 2 && r.d[0] == 5 && r.d[1] == 5, "array of zero-sized elements lost their encodings");
+		let d: VecDeque<OneV> = v.iter().cloned().collect();
+		let mut r = Buf::<8>::new(); d.encode_to(&mut r);
+		assert!(r.n == 4 && r.d[3] == 5, "VecDeque of zero-sized elements lost their encodings");
+		let mut r = Buf::<8>::new(); (v[..2]).encode_to(&mut r);
+		assert!(r.n == 3 && r.d[0] == 8);
+		let t = (7u8, [OneV::Only; 1], 9u8);
+		let mut r = Buf::<8>::new(); t.encode_to(&mut r);
+		assert!(r.n == 3 && r.d[0] == 7 && r.d[1] == 5 && r.d[2] == 9);
+		core::mem::forget((v, d));
+	}
+}
+
 /// negative twin: a wrong model (big-endian u16) must FAIL
 #[kani::proof]
 #[kani::unwind(4)]
